@@ -635,6 +635,20 @@ fn c03(ctx: &Ctx, col: &mut Collector, extra: &mut serde_json::Value) {
                 if ok.crc != want {
                     col.add(fnd("C03", "constructed_frame_checksum", what, format!("checksum {:06x} but the frame was sealed for {:06x}", ok.crc, want), json!({"frame_hex": hex(&m)})));
                 }
+                // the same frame as the n-th frame of a stream, decoded through a reader
+                let plen = r.range(0, 30) as usize;
+                let mut stream = vec![0u8; plen];
+                r.fill(&mut stream);
+                stream.extend_from_slice(&m);
+                let mut cur = std::io::Cursor::new(&stream[..]);
+                cur.set_position(plen as u64);
+                col.count("constructed_valid_frames_via_reader", 1);
+                match mon::guarded(|| adsb_deku::Frame::from_reader(&mut cur)) {
+                    Ok(Ok(f)) if f.crc == want => {}
+                    Ok(Ok(f)) => col.add(fnd("C03", "constructed_frame_checksum_via_reader", what, format!("checksum {:06x} from from_reader() at stream offset {plen}, the frame was sealed for {:06x}", f.crc, want), json!({"frame_hex": hex(&m), "prefix_len": plen}))),
+                    Ok(Err(e)) => col.add(fnd("C03", "constructed_frame_rejected_via_reader", what, format!("from_reader() at stream offset {plen}: {e:?}"), json!({"frame_hex": hex(&m), "prefix_len": plen}))),
+                    Err((loc, msg)) => col.add(fnd("C01", "panic_from_reader", &loc, msg, json!({"frame_hex": hex(&m)}))),
+                }
             }
         }
     });
